@@ -393,7 +393,7 @@ theorem rt_extObj (env : Env) (fuel : Nat)
         cases value <;> first | rfl | simp at hv
       have hnn : vname = "" := by simpa using hn
       subst hvn hnn
-      refine ⟨tb ++ leBytes 1 0, by simp [encExtObj, encTypeId, htb], ?_⟩
+      refine ⟨tb ++ leBytes 1 0, by simp [encExtObj, encTypeId, htb, isPanic], ?_⟩
       unfold decExtObj
       refine Reads.bind rt ?_
       refine Reads.congr (Reads.bind rm ?_) (List.append_nil _) rfl
@@ -410,7 +410,7 @@ theorem rt_extObj (env : Env) (fuel : Nat)
         rw [hb] at hb'
         cases hb'
         refine ⟨tb ++ leBytes 1 2 ++ leBytes 4 body.length ++ body, ?_, ?_⟩
-        · simp [encExtObj, encTypeId, htb, encExtBody, hb, xmlName]
+        · simp [encExtObj, encTypeId, htb, isPanic, encExtBody, hb, xmlName]
         · unfold decExtObj
           have hassoc : tb ++ leBytes 1 2 ++ leBytes 4 body.length ++ body
               = tb ++ (leBytes 1 2 ++ (leBytes 4 body.length ++ body)) := by simp
@@ -439,7 +439,7 @@ theorem rt_extObj (env : Env) (fuel : Nat)
               | succ n => cases value <;> simp [wt] at hw; exact ⟨_, rfl⟩
             obtain ⟨x, rfl⟩ := hvp
             refine ⟨tb ++ leBytes 1 mask ++ leBytes 4 body.length ++ body, ?_, ?_⟩
-            · simp [encExtObj, encTypeId, htb, m0, encExtBody, hxn, hl, hb]
+            · simp [encExtObj, encTypeId, htb, isPanic, m0, encExtBody, hxn, hl, hb]
             · unfold decExtObj
               have hassoc : tb ++ leBytes 1 mask ++ leBytes 4 body.length ++ body
                   = tb ++ (leBytes 1 mask ++ (leBytes 4 body.length ++ body)) := by simp
